@@ -27,37 +27,77 @@ def build(tier, seed):
                                                   "oracle": "Ok(v) iff the string is one of the 36 pinned names and v is the variant of that name; everything else Err"}, 20.0),
                   "crate::c18_fromstr!(c18_fromstr_any48, 48, 51);"))
     pair_h = fam
+    for k, st in enumerate(["phif64", "HLTANHF32", "aminstari8jonesdeg1clip", "Phif64 ", "HLPhif", ""]):
+        items.append((Harness("c18_reject_%d" % k, {"string": st, "oracle": "rejected"}, 2.0),
+                      "crate::c18_reject!(c18_reject_%d, \"%s\", 51);" % (k, st)))
     limits = [1] if tier == "quick" else [1, 2]
     for idx, (impl, ty, sched) in enumerate(impls):
         kind = arith.type_info(ty)["kind"]
         stubs = "with_table_stubs" if kind == "i8" else "with_surrogate_stubs"
-        items.append((Harness("c18_name_%s" % impl, {"name": impl, "oracle": "from_str(name) == variant; Display prints the identical string"}, 2.0),
-                      "crate::c18_name!(c18_name_%s, %d, 51);" % (impl, idx)))
+        names = set(n for n, _, _ in impls)
+        near = [x for x in (impl.lower(), impl.upper(), impl.swapcase(), impl + " ", " " + impl, impl[:-1], impl[1:], impl + "0",
+                            impl.replace("f64", "F64").replace("f32", "F32").replace("i8", "I8")) if x not in names]
+        near = sorted(set(near))
+        items.append((Harness("c18_name_%s" % impl, {"name": impl, "near_misses": near,
+                                                       "oracle": "from_str(name) == variant; Display prints the identical string; the listed near misses are rejected"}, 2.0),
+                      "crate::c18_name!(c18_name_%s, %d, 51, [%s]);" % (impl, idx, ", ".join('"%s"' % x for x in near))))
         items.append((Harness("c18_vlist_%s" % impl, {"name": impl, "oracle": "value_variants()[i] is this variant and its possible-value name is the identical string"}, 2.0),
                       "crate::c18_valuelist!(c18_vlist_%s, %d, 51);" % (impl, idx)))
-        w = width_of(ty)
-        for lim in limits:
-            heavy = ("Aminstar" in ty and sched == "flooding")
-            # flooding A-Min*: the symbolic argmin makes message destinations symbolic; two decodes on a
-            # two-check matrix exceed 8 GB / 600 s.  Quick tier: single-check 1x2 matrix for those rows (pins the
-            # arithmetic and the width; flooding/layered are indistinguishable on one check -> thorough tier).
-            variants = [("chain2x3", 3, False, "[-1.0, 1.0]", "[1, 0]")]
-            if heavy:
-                variants = [("pair1x2", 2, True, "[-1.0]", "[1]")] + (variants if tier == "thorough" else [])
-            for hname, n, xpos, wl, we in variants:
-                hn = "c18_pair_%s_%s_l%d" % (impl, hname, lim)
-                items.append((Harness(hn, {"name": impl, "expected": "%s::Decoder<%s>" % (sched, ty), "matrix": hname, "iteration_limit": lim,
-                                            "input": "width witness: one LLR over every f64 with |x| <= 1e30; pairing: %d LLRs from the domain s*2^-e, s in [-127,127], e in {0,3,30}" % n,
-                                            "oracle": "zero-iteration failure word = hard decisions of the input quantised at the named precision (%d bit); identical (verdict, word, iterations) to the generic decoder built directly" % w},
-                                      30.0 * lim * (2 if heavy else 1), stubs="TABLE" if kind == "i8" else "SURROGATE"),
-                              "crate::c18_pair!(%s, %s, %s, %s, %s, %d, %d, h_%s, %d, %s, %s, %s, %d);" % (hn, stubs, impl, sched, ty, w, lim, hname, n, "true" if xpos else "false", wl, we, 3 + 3)))
+    # pairing + width witness.  Rows are grouped (up to 3 per harness in the quick tier, 1 in the thorough
+    # tier): each harness that reaches build_decoder pays ~130 s of tool I/O for a 68 MB goto binary.
+    groups = {}
+    for impl, ty, sched in impls:
+        kind = arith.type_info(ty)["kind"]
+        heavy = ("Aminstar" in ty and sched == "flooding")
+        groups.setdefault((kind, heavy), []).append((impl, ty, sched))
+    # type identity of every row (vtable of the built trait object == vtable of the generic decoder of the
+    # documented arithmetic and schedule, boxed directly); 9 rows per harness
+    per_t = 9
+    for gi in range(0, len(impls), per_t):
+        chunk = impls[gi:gi + per_t]
+        hn = "c18_types_%d" % (gi // per_t)
+        body = ";\n    ".join("%s, %s, %s, %s" % (i, sc, t, "horizontal_layered" if sc == "flooding" else "flooding") for i, t, sc in chunk)
+        items.append((Harness(hn, {"names": [i for i, _, _ in chunk], "expected": ["%s::Decoder<%s>" % (sc, t) for i, t, sc in chunk],
+                                    "oracle": "build_decoder(name) has the vtable of Box<expected type>; the other schedule has a different vtable (sanity of the oracle)",
+                                    "input": "concrete (a type-identity fact, no symbolic data)"}, 40.0, stubs="TABLE"),
+                      "crate::c18_types!(%s, with_table_stubs, 6;\n    %s);" % (hn, body)))
+    # behavioural pairing + width witness through the factory: every row in the thorough tier, five representative
+    # rows in the quick tier (each such harness costs 250-300 s; the 900 s budget does not hold 36 of them)
+    QUICK_ROWS = ("Phif64", "HLTanhf32", "Minstarapproxi8JonesPartialHardLimitDeg1Clip", "HLAminstari8", "Aminstari8Jones", "HLMinstarapproxf64")
+    per = 1
+    for (kind, heavy), rows_ in sorted(groups.items()):
+        if tier == "quick":
+            rows_ = [r_ for r_ in rows_ if r_[0] in QUICK_ROWS]
+            if not rows_:
+                continue
+        stubs = "with_table_stubs" if kind == "i8" else "with_surrogate_stubs"
+        # flooding A-Min*: the symbolic argmin makes message destinations symbolic; two decodes on a two-check
+        # matrix exceed 8 GB / 600 s.  Quick tier: single-check 1x2 matrix for those rows (pins the arithmetic and
+        # the width; flooding/layered are indistinguishable on one check -> thorough tier).
+        variants = [("chain2x3", 3, False, "[-1.0, 1.0]", "[1, 0]")]
+        if heavy:
+            variants = [("pair1x2", 2, True, "[-1.0]", "[1]")] + (variants if tier == "thorough" else [])
+        for hname, n, xpos, wl, we in variants:
+            for lim in limits:
+                for gi in range(0, len(rows_), per):
+                    chunk = rows_[gi:gi + per]
+                    hn = "c18_pair_%s_%s_l%d" % ("_".join(i for i, _, _ in chunk), hname, lim)
+                    body = ";\n    ".join("%s, %s, %s, %d" % (i, sc, t, width_of(t)) for i, t, sc in chunk)
+                    items.append((Harness(hn, {"names": [i for i, _, _ in chunk], "expected": ["%s::Decoder<%s>" % (sc, t) for i, t, sc in chunk],
+                                                "matrix": hname, "iteration_limit": lim,
+                                                "input": "width witness: one LLR over every f64 with |x| <= 1e30; pairing: %d LLRs from the domain s*2^-e, s in [-127,127], e in {0,3,30}" % n,
+                                                "oracle": "per name: zero-iteration failure word = hard decisions of the input quantised at the named precision; identical (verdict, word, iterations) to the generic decoder built directly"},
+                                          (30.0 + 20.0 * len(chunk)) * lim, stubs="TABLE" if kind == "i8" else "SURROGATE", neighbourhood=True),
+                                  "crate::c18_pairs!(%s, %s, %d, h_%s, %d, %s, %s, %s, %d;\n    %s);" % (hn, stubs, lim, hname, n, "true" if xpos else "false", wl, we, 3 + 3, body)))
     meta = {
         "functions": ["DecoderImplementation::{from_str, fmt (Display), value_variants, to_possible_value, build_decoder}", "flooding::Decoder::{new, decode}", "horizontal_layered::Decoder::{new, decode}", "all 24 DecoderArithmetic impls"],
         "bounds": {"string_length": "<= 48 ASCII bytes", "pair_matrices": families.describe(pair_h), "pair_limits": limits,
                    "pair_llr_domain": "s*2^-e, s in [-127,127], e in {0,3,30} (equivalence of two float runs is a miter: small domain, DESIGN P24)"},
-        "outside": ["non-ASCII strings and strings longer than 48 bytes", "the C API and CLI call sites of from_str",
+        "outside": ["non-ASCII strings and strings longer than 48 bytes",
+                    "type identity is observed through the vtable pointer of the trait object (layout of *const dyn as (data, vtable)); a toolchain that duplicated vtables would make this check fail on a correct tree (it does not under Kani 0.68)",
+                    "quick tier: the behavioural differential through the factory runs for six representative rows only (thorough: all 36); the other rows are pinned by type identity", "the C API and CLI call sites of from_str",
                     "float rows: pairing holds for the SURROGATE interpretation of the math functions on the small LLR domain; the working precision is pinned separately by the width witness on all f64"],
         "stubs": ["TABLE (8-bit rows)", "SURROGATE (float rows)"],
         "assumptions": ["the expected (arithmetic, schedule) of each name is pinned from the documentation in vlib/arith.py (HL prefix = horizontal layered)"],
     }
-    return {"prelude": pre, "items": items, "meta": meta, "nshards": 14, "timeout": 600 if tier == "quick" else 2400}
+    return {"prelude": pre, "items": items, "meta": meta, "nshards": 14 if tier == "quick" else 10, "timeout": 700 if tier == "quick" else 3600, "rss_cap_gb": 10 if tier == "quick" else 14}
